@@ -4,6 +4,7 @@ import (
 	"fmt"
 	"os"
 	"sync/atomic"
+	"syscall"
 	"time"
 
 	"mc/report"
@@ -11,9 +12,31 @@ import (
 
 // watchdog reports a call that does not return within the horizon as a violation and ends the shard process
 // (a hung goroutine cannot be cancelled). Only used inside shard processes (ctx.Fork).
+//
+// The horizon is measured in CPU time consumed by this (single-threaded) shard process since the call was entered,
+// so a shard that is merely starved of CPU on a busy machine is never mistaken for a hang; a call that blocks without
+// consuming CPU is caught by a wall-clock horizon twenty times as long.
 type watchdog struct {
-	cur   atomic.Value
-	start atomic.Int64
+	cur      atomic.Value
+	start    atomic.Int64
+	cpuStart atomic.Int64
+}
+
+// processCPU: user+system CPU time of this process in nanoseconds.
+func processCPU() int64 {
+	var ru syscall.Rusage
+	if syscall.Getrusage(syscall.RUSAGE_SELF, &ru) != nil {
+		return 0
+	}
+	return ru.Utime.Nano() + ru.Stime.Nano()
+}
+
+// hungSince says whether a call entered at wall time t0 (ns) with process CPU time c0 (ns) has exceeded the horizon.
+func hungSince(t0, c0 int64, horizon time.Duration) bool {
+	if t0 == 0 {
+		return false
+	}
+	return time.Duration(processCPU()-c0) > horizon || time.Since(time.Unix(0, t0)) > 20*horizon
 }
 
 func startWatchdog(r *report.Report, horizon time.Duration, key string) *watchdog {
@@ -23,9 +46,9 @@ func startWatchdog(r *report.Report, horizon time.Duration, key string) *watchdo
 		for {
 			time.Sleep(200 * time.Millisecond)
 			t0 := w.start.Load()
-			if t0 != 0 && time.Since(time.Unix(0, t0)) > horizon {
+			if hungSince(t0, w.cpuStart.Load(), horizon) && w.start.Load() == t0 {
 				in := w.cur.Load().(string)
-				r.Violate(key, in, fmt.Sprintf("no return after %v", horizon), nil)
+				r.Violate(key, in, fmt.Sprintf("no return after %v of CPU time (or %v of wall time)", horizon, 20*horizon), nil)
 				r.NotExhaustive("a shard stopped at a non-terminating input; the rest of that shard was not run")
 				r.WritePartial(os.Getenv("MC_PARTIAL"))
 				os.Exit(0)
@@ -35,5 +58,9 @@ func startWatchdog(r *report.Report, horizon time.Duration, key string) *watchdo
 	return w
 }
 
-func (w *watchdog) enter(desc string) { w.cur.Store(desc); w.start.Store(time.Now().UnixNano()) }
-func (w *watchdog) leave()            { w.start.Store(0) }
+func (w *watchdog) enter(desc string) {
+	w.cur.Store(desc)
+	w.cpuStart.Store(processCPU())
+	w.start.Store(time.Now().UnixNano())
+}
+func (w *watchdog) leave() { w.start.Store(0) }
